@@ -93,6 +93,23 @@ def save_restore(ctx):
         ctx.check(dotted(c.value) == "self.parallel_config", c, "what is installed is self.parallel_config")
         ctx.check(not g.path_exists(g.nodes_of(c), g.nodes_of_all(reads)), c, "the saved configuration is not overwritten after the installation",
                   "old_parallel_config is (re)read after the new configuration was installed: exit restores the wrong settings")
+    # a context whose constructor fails is never exited: nothing may raise once the new configuration is installed
+    for c in sets:
+        late = [r for r in nodes_of_type(init, ast.Raise) if g.path_exists(g.nodes_of(c), g.nodes_of(r))]
+        ctx.check(not late, late[0] if late else c, "parallel_config.__init__ cannot fail after the installation",
+                  "parallel_config.__init__ can raise after the new configuration was installed: __exit__ never runs for an object whose constructor failed, so the rejected settings stay active in the thread")
+    for cq, cd in ctx.repo.mod(PAR).classes.items():
+        if any(dotted(b) in ("parallel_config", "parallel_backend") for b in cd.bases):
+            sub_init = ctx.repo.mod(PAR).funcs.get(cq + ".__init__")
+            if sub_init is None:
+                continue
+            gs = cfg_of(sub_init)
+            sup = [x for x in calls_in(sub_init) if (call_name(x) or "").endswith("__init__") and ("super()" in (call_name(x) or "") or "parallel_config" in (call_name(x) or ""))]
+            for x in sup:
+                late = [r for r in nodes_of_type(sub_init, ast.Raise) if gs.path_exists(gs.nodes_of(x), gs.nodes_of(r))]
+                ctx.check(not late, late[0] if late else x, "%s.__init__ validates before it installs (nothing raises after the parent constructor)" % cq,
+                          "%s.__init__ can raise after the parent constructor installed the configuration: the with block is never entered, __exit__ never runs, and the rejected settings stay "
+                          "active in the thread (and hide those of an enclosing context)" % cq)
     ex = F(ctx, "parallel_config.__exit__")
     ge = cfg_of(ex)
     un = [c for c in calls_in(ex) if call_name(c) == "self.unregister"]
